@@ -90,10 +90,16 @@ def handle (toks : List String) : String :=
         let m := if s = nullText then showRes (.ok cur) else showPct (pctBody s) r
         s!"m {m}" ++ tail (isPercentageText s) (fits64 s.dropLast) (pctReadDom s) (pctReadOracle s acc ⟨ga⟩)
       | "pujs" =>
-        let u := unquote s
+        -- the text PercentageFromString sees (none: null literal, syntax error or empty string)
+        let u : Option Text := match jsonText s with
+          | .ok (t, false) => if t.isEmpty then none else some t
+          | _ => none
         let r := pctUnmarshalJSON ⟨cur⟩ s
-        let m := if u = nullText then showRes (.ok cur) else showPct (pctBody u) r
-        s!"m {m}" ++ tail (isPercentageText s) (fits64 s.dropLast) (pctReadDom u) (pctReadOracle s acc ⟨ga⟩)
+        let m := match u, r with
+          | some t, _ => showPct (pctBody t) r
+          | none, .ok p => showRes (.ok p.amount)
+          | none, .error e => s!"err {e.name}"
+        s!"m {m}" ++ tail (isPercentageText s) (fits64 s.dropLast) ((u.map pctReadDom).getD true) (pctReadOracle s acc ⟨ga⟩)
       | _ => "bad-op"
     | _, _, _, _ => "bad-args"
   | ["pfs", t, gok, gv, ge] =>
